@@ -254,7 +254,14 @@ where
         let property = &ctx.property;
         let res = runner.run(&strategy, |case| {
             let mut info = Info::default();
+            let _ = crate::adapt::take_noncanonical();
             let r = catch_unwind(AssertUnwindSafe(|| check(&case, &mut info)));
+            // a value read from the crate that is inconsistent with the crate's own equality is a failure
+            // of whatever operation produced it, even if its integer value was the expected one
+            let r = match (r, crate::adapt::take_noncanonical()) {
+                (Ok(Ok(())), Some(m)) => Ok(Err(m)),
+                (other, _) => other,
+            };
             match r {
                 Ok(Ok(())) => {
                     if !failed.get() {
@@ -361,7 +368,12 @@ where
     fn replay(&self, case: &Value) -> Result<(), String> {
         let c: C = serde_json::from_value(case.clone()).map_err(|e| format!("cannot decode case: {}", e))?;
         let mut info = Info::default();
+        let _ = crate::adapt::take_noncanonical();
         match catch_unwind(AssertUnwindSafe(|| (self.check)(&c, &mut info))) {
+            Ok(Ok(())) => match crate::adapt::take_noncanonical() {
+                Some(m) => Err(m),
+                None => Ok(()),
+            },
             Ok(r) => r,
             Err(_) => Err(format!("harness panic: {}", last_panic())),
         }
